@@ -7,9 +7,9 @@
              solves (status -> exception, fluxes = forward - reverse, objective value) differs
    code >=2: the property monitor fails on the implementation's own output                      *)
 From Coq Require Import QArith List Bool ZArith.
-From Cobra.LP Require Import Defs Cert Fba.
+From Cobra.LP Require Import Defs Cert Fba Milp.
 From Cobra.Optimize Require Import Model.
-From Cobra.Secondary Require Import Aux Pfba AuxLp Moma.
+From Cobra.Secondary Require Import Aux Pfba AuxLp Moma Room.
 From Cobra.Gen Require Import OptTables.
 Import ListNotations.
 Open Scope Q_scope.
@@ -179,11 +179,104 @@ Definition moma_checks (c : momacase) : list nat :=
   | Some _ => []
   end.
 
+(* ================================ ROOM ================================ *)
+(* LP comparison up to 1e-9: add_room computes the band limits in floating point (delta, epsilon and the
+   reference fluxes are arbitrary doubles), the model computes them exactly *)
+Definition near (a b : Q) : bool := Qle_bool (Qabs' (a - b)) (1 # 1000000000).
+Definition eb_near (a b : ebound) : bool :=
+  match a, b with
+  | NegInf, NegInf | PosInf, PosInf => true
+  | Fin x, Fin y => near x y
+  | _, _ => false
+  end.
+Definition vnear (a b : vec) : bool := forallb (fun x => near x 0) (vsub a b).
+Definition row_near (r s : row) : bool :=
+  vnear (r_coef r) (r_coef s) && eb_near (r_lo r) (r_lo s) && eb_near (r_hi r) (r_hi s).
+Definition lp_near (p q : lp) : bool :=
+  forall2b (fun a b => eb_near (fst a) (fst b) && eb_near (snd a) (snd b)) (vbounds p) (vbounds q) &&
+  forall2b row_near (rows p) (rows q) && vnear (obj p) (obj q).
+Definition nats_eqb (a b : list nat) : bool := forall2b Nat.eqb a b.
+
+Record roomcase := mkRoom {
+  ro_m : fbamodel;
+  ro_ref : vec;
+  ro_delta : Q; ro_eps : Q; ro_linear : bool;
+  ro_fba : oracle;                          (* OInf: certificate that the model has no flux vector *)
+  ro_wide : option (vec * list bcert);      (* mixed-problem certificates with the band widened ... *)
+  ro_narrow : option (vec * list bcert);    (* ... and narrowed by the envelope (DESIGN 2.3) *)
+  ro_lin : oracle;                          (* linear variant: LP certificate *)
+  ro_lp : option (lp * list nat);           (* LP read back from GLPK and positions of its binary columns *)
+  ro_sr : sresult;
+  ro_out : sobs }.
+
+(* GLPK accepts y within 1e-5 of an integer, which moves a big-M row by 1e-5 * |coefficient| *)
+Definition room_env (m : fbamodel) (ref : vec) (delta eps : Q) : Q :=
+  let a := room_aux m ref PosInf delta eps in
+  let big := fold_right (fun i acc => Qmax' (Qabs' (fst (fst (ax_up a i)))) (Qmax' (Qabs' (fst (fst (ax_lo a i)))) acc))
+                        1 (seq 0 (length (rxns m))) in
+  (1 # 100000) * big.
+
+Definition room_tiny : Q := 1 # 1000000000.
+(* objective_value = sum of y_i as GLPK holds them (each within 1e-5 of an integer) *)
+Definition room_otol : Q := 1 # 10000.
+
+Definition room_checks (c : roomcase) : list nat :=
+  let m := ro_m c in
+  let n := length (rxns m) in
+  let lin := ro_linear c in
+  let p := room_lp m (ro_ref c) PosInf (ro_delta c) (ro_eps c) lin in
+  let ints := room_ints m lin in
+  if negb (valid_model_b m && finite_model_b m) then [9%nat] else
+  code1 (match ro_lp c with Some (l, bins) => lp_near p l && nats_eqb ints bins | None => false end &&
+         sol_agrees (room (ro_sr c)) (ro_out c)) ++
+  match ro_fba c with
+  | OInf y =>
+      if check_infeasible (net_lp m) y
+      then match ro_out c with SSol Infeasible _ _ => [] | _ => [2%nat] end
+      else [9%nat]
+  | _ =>
+    if lin then
+      match ro_lin c with
+      | OOpt x y =>
+          if negb (check_opt p x y) then [9%nat] else
+          match ro_out c with
+          | SSol st ov fl =>
+              (if status_eqb st Optimal then [] else [2%nat]) ++
+              (if close tol ov (- value p x) then [] else [3%nat]) ++
+              (if feasible_tol (net_lp m) tol fl then [] else [4%nat])
+          | _ => [2%nat]
+          end
+      | _ => [9%nat]
+      end
+    else
+      match ro_wide c, ro_narrow c with
+      | Some (xw, cw), Some (xn, cn) =>
+          let e := room_env m (ro_ref c) (ro_delta c) (ro_eps c) in
+          let pw := room_lp m (ro_ref c) PosInf (ro_delta c) (ro_eps c + e) false in
+          let pn := room_lp m (ro_ref c) PosInf (ro_delta c) (ro_eps c - room_tiny) false in
+          if negb (check_milp pw ints xw cw && check_milp pn ints xn cn) then [9%nat] else
+          (* certified: least count with the band widened by GLPK's integrality slack (kw) <= least count of
+             the documented band <= least count with the band narrowed by 1e-9 (kn).  The implementation's
+             count must lie in [kw, kn]; when kw = kn (well-conditioned instance) that is equality.       *)
+          let kw := - value pw xw in
+          let kn := - value pn xn in
+          match ro_out c with
+          | SSol st ov fl =>
+              (if status_eqb st Optimal then [] else [2%nat]) ++
+              (if Qle_bool (kw - room_otol) ov && Qle_bool ov (kn + room_otol) then [] else [3%nat]) ++
+              (if feasible_tol (net_lp m) tol fl then [] else [4%nat]) ++
+              (if Qle_bool (count_out n (ro_delta c) (ro_eps c + e) (ro_ref c) fl) (ov + room_otol) then [] else [6%nat])
+          | _ => [2%nat]
+          end
+      | _, _ => [9%nat]
+      end
+  end.
+
 (* ================================ all of C09 ================================ *)
-Inductive c09case := CPfba (c : pfbacase) | CMoma (c : momacase).
+Inductive c09case := CPfba (c : pfbacase) | CMoma (c : momacase) | CRoom (c : roomcase).
 
 Definition checks (c : c09case) : list nat :=
-  match c with CPfba p => pfba_checks p | CMoma p => moma_checks p end.
+  match c with CPfba p => pfba_checks p | CMoma p => moma_checks p | CRoom p => room_checks p end.
 
 Definition failing (cases : list (Z * c09case)) : list (Z * list (nat * nat)) :=
   filter (fun r => match snd r with [] => false | _ => true end)
